@@ -84,7 +84,10 @@ NoLoss == (st.eof /\ ~st.failed /\ st.due # <<>>) => Filtered(st.hist) = TheOrac
 \* C04 (second formulation)
 ReassemblyExact ==
   (~st.fireCont /\ api[1] # "recv_frame") =>
-     IsPrefixOf(DeliveredMsgs(st.hist), MsgsOf(Frames(st.stream), 0, <<>>))
+     \* (a text message that is refused as ill-formed is skipped; everything else is delivered in order)
+     IsPrefixOf(DeliveredMsgs(st.hist),
+                SelectSeq(MsgsOf(Frames(st.stream), 0, <<>>),
+                          LAMBDA m : ~(m[1] = OpText /\ ~st.skipUtf8 /\ ~WellFormedUtf8(m[2]))))
 
 \* C05 (second formulation): an independent scan for the first illegal frame
 RECURSIVE FirstIllegal(_, _, _, _)
